@@ -62,6 +62,7 @@ static void call_once(int i, int late) {
            "myth_once on control %d returned while the init routine had %s", i, atomic_load(&c->ran) ? "not finished" : "not even started");
   HK_CHECK(atomic_load(&c->ran) == 1, "once:ran-twice", "control %d: init ran %d times", i, atomic_load(&c->ran));
   atomic_fetch_add(&g_calls, 1);
+  hk_progress();
 }
 
 static void * caller(void * a_) {
@@ -90,6 +91,7 @@ int main(int argc, char ** argv) {
   uint64_t seed = hk_seed();
   int progs = (int)hk_arg("progs", 8);
   hkm_setup();
+  hk_watch_start("once:caller-never-returns", 120);
   int p;
   for (p = 0; p < progs; p++) {
     hk_rng_t r; hk_rng_seed(&r, seed, (uint64_t)p);
